@@ -36,8 +36,16 @@ func c17RepoDir() string {
 }
 
 func c17TestdataDir() string {
-	// the package directory is the working directory of `go test`
+	// the driver runs the test binary from a scratch directory: resolve against the framework root
+	if d := filepath.Join(verifRoot(), "props", "testdata", "pgp"); c17DirExists(d) {
+		return d
+	}
 	return filepath.Join("testdata", "pgp")
+}
+
+func c17DirExists(d string) bool {
+	st, err := os.Stat(d)
+	return err == nil && st.IsDir()
 }
 
 // TestC17_GenKeys (re)creates the committed key files. Never run by the driver.
